@@ -5,11 +5,15 @@
    descriptors the equality with the printer model print_descr is itself a theorem); (2) the full round trip --
    accepted, re-printed, accepted again with identical fields, printing to itself, extension-free form = erasure --
    for every descriptor of the complete finite universe of C03 (840 texts), by kernel computation.
+   (3) the same round trip for EVERY accepted descriptor text, no bound on ids, lists or numbers (Proofs/RoundTrip.v): the
+   printed text is accepted again and gives the identical record -- same symbol, id, weight, transition list, bond order,
+   attachment -- hence prints to itself.  The float printer is a parameter of which the theorem asks, for the weights of that
+   descriptor, what Python's repr guarantees (float(repr x) = x; no blank, bar or bracket in repr x).
    FULL STATEMENT (not proved): C01_fixed_point for all accepted strings of the token / object / molecule / system
    layers.  The implementation-level oracle runs the complete round trip on every accepted string of every archetype
    and on the 119 documented strings; the erasure itself is evaluated with the extracted [erase_ext]. *)
 From Coq Require Import List ZArith QArith Ascii String Bool.
-From GBS Require Import Model.PyStr Model.Num Model.Bond Model.Token Model.Render Src.SrcBond Proofs.BondP Proofs.TokenP Proofs.RenderP.
+From GBS Require Import Model.PyStr Model.Num Model.Bond Model.Token Model.Render Src.SrcBond Proofs.BondP Proofs.TokenP Proofs.RenderP Proofs.StrP Proofs.RoundTrip.
 From GBS Require Props.C03.
 Import ListNotations.
 
@@ -76,6 +80,37 @@ Proof. vm_cast_no_check (eq_refl true). Qed.
 Theorem C01_descriptor_round_trip_universe : forall t, In t C03.universe -> rt_ok t = true.
 Proof. apply forallb_forall. exact universe_round_trips. Qed.
 Print Assumptions C01_descriptor_round_trip_universe.
+
+(* ---- the round trip for every accepted descriptor ---- *)
+Theorem C01_descriptor_round_trip : forall (fprint : num -> str) raw n pre atom d,
+  parse_descr raw n pre atom = OK d ->
+  Forall (reads_back fprint) (descr_weights d) ->
+  parse_descr (print_descr fprint true d) n pre atom = OK d.
+Proof. exact descr_round_trip. Qed.
+Print Assumptions C01_descriptor_round_trip.
+
+(* accepted again, the same object, and a fixed point of printing *)
+Theorem C01_descriptor_canonical_fixed_point : forall (fprint : num -> str) raw n pre atom d,
+  parse_descr raw n pre atom = OK d -> Forall (reads_back fprint) (descr_weights d) ->
+  exists d', parse_descr (print_descr fprint true d) n pre atom = OK d' /\ d' = d /\
+             print_descr fprint true d' = print_descr fprint true d.
+Proof. exact descr_canonical_fixed_point. Qed.
+Print Assumptions C01_descriptor_canonical_fixed_point.
+
+(* the integer printer is read back by int(): ids of any size survive *)
+Theorem C01_id_read_back : forall z, py_int (z_to_str z) = Some z.
+Proof. exact py_int_z_to_str. Qed.
+Print Assumptions C01_id_read_back.
+
+(* the hypotheses are met: a descriptor outside the finite universe (id 1234, a list of three numbers) *)
+Example C01_round_trip_example :
+  exists d, parse_descr (lit "[<1_234| 0.5  2.25 10|]") 3 (lit "=") (Some 7%Z) = OK d /\
+            Forall (reads_back fprint_dec) (descr_weights d) /\
+            print_descr fprint_dec true d = lit "[<1234|0.5 2.25 10.0|]".
+Proof.
+  eexists. split; [vm_compute; reflexivity|]. split; [|vm_compute; reflexivity].
+  repeat constructor; vm_compute; try reflexivity; discriminate.
+Qed.
 
 Example C01_example :
   erase_ext (lit "C[$|0.5|]{[$][$|2.0|]CC[$]; [$][H][$]}|gauss(10.0, 1.0)|[$]O.|50.0%|") = lit "C[$]{[$][$]CC[$]; [$][H][$]}[$]O.".
